@@ -943,6 +943,12 @@ theorem outside_blocks_meet_spec (msg : Bytes) (prog : List Stmt) :
   · simp at hc
 
 
+/-- **The Spec's clause about the switch holds on the model for every event history**: after every event of every
+sequence of `enter(ignore?)` / `exit(normal | exception)` events the flag is on exactly when no block entered with
+`ignore = False` is open (`ctxOk` is the predicate the driver evaluates on the implementation's behaviour). -/
+theorem switch_spec_holds_on_every_history (evs : List CtxEv) : ctxOk evs (Ctx.trace {} evs) = true :=
+  trace_meets_ctxOk evs
+
 /-- a view bound *inside* a disable block and used after it: validated (the bad value is refused, nothing changes); used
 inside the block: not validated (300 wraps to 44); the switch is on at the end although the last statement raised -/
 def demoTy : FTy := .arr .intArray (.int .i8) 3
